@@ -199,11 +199,15 @@ class AlignmentSimilarity(HomogFamilyAlignment, Similarity):
             source, target, rotation=rotation, allow_mirror=allow_mirror
         )
         Similarity.__init__(self, x.h_matrix, copy=False, skip_checks=True)
+        self.rotation = rotation
         self.allow_mirror = allow_mirror
 
     def _sync_state_from_target(self):
         similarity = procrustes_alignment(
-            self.source, self.target, allow_mirror=self.allow_mirror
+            self.source,
+            self.target,
+            rotation=self.rotation,
+            allow_mirror=self.allow_mirror,
         )
         self._set_h_matrix(similarity.h_matrix, copy=False, skip_checks=True)
 
